@@ -721,4 +721,151 @@ theorem legacy_resync_exact (cap : Nat) (g p1 : List Byte) (ps : List (List Byte
 example : ldelivered (LRecv.init 8) ([0xAC#8, 0x66#8] ++ [[0x41#8], [0x42#8]].flatMap encodeLeg) = [[0x41#8], [0x42#8]] := by
   decide +kernel
 
+/-! ### round 3b: the overflow clause on the buffer-level trace when start = stop -/
+
+/-- `overflow_reported_buf` WITHOUT the restriction start ≠ stop: the history `g` may leave the receiver in any
+state when the markers differ, in any READY state (between frames or primed) when they coincide (v0).  The
+buffer-level trace the driver prints exists, OVERFLOW is among the answers to the over-long frame, deliveries =
+those of the history. -/
+theorem overflow_reported_buf_ready (ctx : Ctx) (h : ctx.WF)
+    (buf : List Byte) (cap : BitVec 32) (hcap1 : 1 ≤ cap.toNat) (hblk : cap.toNat ≤ buf.length)
+    (g pre rest : List Byte)
+    (hr : ctx.start ≠ ctx.stop ∨ Ready (feed ctx (Recv.init cap.toNat) g).1)
+    (hnm : ∀ b ∈ pre ++ rest, b ≠ ctx.start ∧ b ≠ ctx.stop)
+    (u : List Byte) (pend : Bool) (hu : unescPartial ctx pre = some (u, pend))
+    (hbig : cap.toNat - 1 < u.length) :
+    ∃ t t0, bfeedTrace ctx (BRecv.init buf cap) (g ++ ctx.start :: ((pre ++ rest) ++ [ctx.stop])) = some t ∧
+      bfeedTrace ctx (BRecv.init buf cap) g = some t0 ∧
+      'O' ∈ t.1.drop g.length ∧ t.2 = t0.2 := by
+  have hc : (feed ctx (Recv.init cap.toNat) g).1.cap = cap.toNat := feed_cap ctx _ g
+  obtain ⟨o1, o2, _⟩ := overflow_any_state ctx h (feed ctx (Recv.init cap.toNat) g).1 hr pre rest hnm u pend hu
+    (by rw [hc]; exact hbig)
+  refine ⟨_, _, recv_trace_never_faults ctx buf cap hcap1 hblk _, recv_trace_never_faults ctx buf cap hcap1 hblk _, ?_, ?_⟩
+  · rw [feedTrace_eq, feed_append]
+    simp only [List.map_append]
+    rw [List.drop_left' (by rw [List.length_map, feed_length])]
+    exact List.mem_map.mpr ⟨OVERFLOW, o1, by decide⟩
+  · rw [feedTrace_eq, feedTrace_eq]
+    simp only [delivered_append, o2, List.append_nil]
+
+-- non-vacuity (v0, start = stop): after the history "frame of [41]" (a delivered packet) the receiver is between frames
+example : Ctx.v0.start = Ctx.v0.stop ∧ Ready (feed Ctx.v0 (Recv.init 3) (encode Ctx.v0 [0x41#8])).1 :=
+  ⟨by decide, Or.inl (Or.inl (by decide +kernel))⟩
+
+/-- THE REMAINING CASE, exactly: start = stop and the history leaves the receiver INSIDE a frame with a
+non-empty line (the only states that are not `Ready` besides "after the escape byte", from which the opening
+marker restarts the frame).  Then the opening marker of the next frame is taken for a stop marker and the
+frame - over-long or not, ANY body without a marker - is skipped as garbage: the buffer-level trace exists (no
+access outside the block), what is delivered is exactly what the history followed by that one marker delivers
+(NOTHING of the frame), and OVERFLOW is not among the answers.  So "not delivered" holds in every state;
+"reported as overflow" fails exactly here (`overflow_coincide_inframe_witness`): this frame is the one the
+resynchronisation clause allows to be lost when the markers coincide (`resync_loss_exact`). -/
+theorem overflow_coincide_inframe_buf (ctx : Ctx) (he : ctx.start = ctx.stop)
+    (buf : List Byte) (cap : BitVec 32) (hcap1 : 1 ≤ cap.toNat) (hblk : cap.toNat ≤ buf.length)
+    (g body : List Byte) (hnm : ∀ b ∈ body, b ≠ ctx.start)
+    (hs : (feed ctx (Recv.init cap.toNat) g).1.state = .s1)
+    (hl : (feed ctx (Recv.init cap.toNat) g).1.line ≠ []) :
+    ∃ t t0, bfeedTrace ctx (BRecv.init buf cap) (g ++ ctx.start :: (body ++ [ctx.stop])) = some t ∧
+      bfeedTrace ctx (BRecv.init buf cap) (g ++ [ctx.start]) = some t0 ∧
+      t.2 = t0.2 ∧ 'O' ∉ t.1.drop g.length := by
+  have key : delivered ctx (feed ctx (Recv.init cap.toNat) g).1 (ctx.start :: (body ++ [ctx.stop])) =
+        delivered ctx (feed ctx (Recv.init cap.toNat) g).1 [ctx.start] ∧
+      OVERFLOW ∉ (feed ctx (feed ctx (Recv.init cap.toNat) g).1 (ctx.start :: (body ++ [ctx.stop]))).2 := by
+    generalize (feed ctx (Recv.init cap.toNat) g).1 = r at hs hl
+    obtain ⟨st, crc, line, cp⟩ := r
+    simp only at hs hl
+    subst hs
+    exact inframe_swallow ctx he crc line cp hl body hnm
+  refine ⟨_, _, recv_trace_never_faults ctx buf cap hcap1 hblk _, recv_trace_never_faults ctx buf cap hcap1 hblk _, ?_, ?_⟩
+  · rw [feedTrace_eq, feedTrace_eq]
+    simp only [delivered_append, key.1]
+  · rw [feedTrace_eq, feed_append]
+    simp only [List.map_append]
+    rw [List.drop_left' (by rw [List.length_map, feed_length])]
+    intro hmem
+    obtain ⟨x, hx, hxo⟩ := List.mem_map.mp hmem
+    have : x = OVERFLOW := stsChar_O x hxo
+    exact key.2 (this ▸ hx)
+
+example : Ctx.v0.start = Ctx.v0.stop ∧ (feed Ctx.v0 (Recv.init 3) [0xAC#8, 0x55#8]).1.state = .s1 ∧
+    (feed Ctx.v0 (Recv.init 3) [0xAC#8, 0x55#8]).1.line ≠ [] := by decide +kernel
+
+/-! ### round 3b: `cstr()` / `sline_getline` at capacity 0 (was "Still open") -/
+
+/-- `recv_trace_never_faults` for EVERY declared capacity, 0 included: the trace the driver computes on the
+buffer-level model, with `cstr()` at every NEWPACKAGE, never faults and is the list-level trace.  (The model
+of `sline_getline` now has the guard `if (sl->cap)` of the repaired code.) -/
+theorem recv_trace_never_faults_any_cap (ctx : Ctx) (buf : List Byte) (cap : BitVec 32)
+    (hblk : cap.toNat ≤ buf.length) (bs : List Byte) :
+    bfeedTrace ctx (BRecv.init buf cap) bs = some (feedTrace ctx (Recv.init cap.toNat) bs) := by
+  have hok : SlineOK (BRecv.init buf cap).line := ⟨rfl, hblk, by simp [BRecv.init, Sline.init]⟩
+  have habs : (BRecv.init buf cap).abs = Recv.init cap.toNat := by
+    simp [BRecv.abs, BRecv.init, Sline.init, Sline.bytes, Recv.init]
+  rw [← habs]
+  exact bfeedTrace_eq_any ctx _ hok bs
+
+/-- the legacy receiver alike -/
+theorem legacy_trace_never_faults_any_cap (buf : List Byte) (cap : BitVec 32)
+    (hblk : cap.toNat ≤ buf.length) (bs : List Byte) :
+    blfeedTrace (BLRecv.init buf cap) bs = some (lfeedTrace (LRecv.init cap.toNat) bs) := by
+  have hok : SlineOK (BLRecv.init buf cap).line := ⟨rfl, hblk, by simp [BLRecv.init, Sline.init]⟩
+  have habs : (BLRecv.init buf cap).abs = LRecv.init cap.toNat := by
+    simp [BLRecv.abs, BLRecv.init, Sline.init, Sline.bytes, LRecv.init]
+  rw [← habs]
+  exact blfeedTrace_eq_any _ hok bs
+
+/-- `cstr()` called AT ANY TIME (not only after NEWPACKAGE), after any stream, at any capacity, and on the
+receiver that never got a buffer (`gstuff_autorecv(ctx)`: NULL, capacity 0): it does not fault and hands over
+the bytes of the list-level line; with capacity 0 it stores nothing (the receiver object, its block included,
+is unchanged) and the line is empty. -/
+theorem cstr_any_time (ctx : Ctx) (buf : List Byte) (cap : BitVec 32)
+    (hblk : cap.toNat ≤ buf.length) (bs : List Byte) :
+    ∃ r' r'' sts, bfeed ctx (BRecv.init buf cap) bs = some (r', sts) ∧
+      r'.cstr = some (r'', (feed ctx (Recv.init cap.toNat) bs).1.line) ∧
+      (cap = 0 → r'' = r' ∧ (feed ctx (Recv.init cap.toNat) bs).1.line = []) := by
+  obtain ⟨r', e1, e2, _, e4, e5, _, _⟩ := recv_never_faults ctx buf cap hblk bs
+  have hok : SlineOK (BRecv.init buf cap).line := ⟨rfl, hblk, by simp [BRecv.init, Sline.init]⟩
+  obtain ⟨_, f1, _, f3, _⟩ := bfeed_refines ctx (BRecv.init buf cap) hok bs
+  rw [e1] at f1
+  obtain rfl : r' = _ := (Prod.mk.inj (Option.some.inj f1)).1
+  obtain ⟨r2, g1, g2, _, g4⟩ := cstr_ok_any r' f3
+  refine ⟨r', r2, _, e1, by rw [g1, e2], ?_⟩
+  intro h0
+  refine ⟨g4 (by rw [e5, h0]), ?_⟩
+  have hb := (recv_bounds ctx cap.toNat bs).1
+  have h00 : cap.toNat - 1 = 0 := by rw [h0]; rfl
+  rw [h00] at hb
+  exact List.eq_nil_of_length_eq_zero (by omega)
+
+theorem cstr_nobuf_any_time (ctx : Ctx) (bs : List Byte) :
+    ∃ r' sts, bfeed ctx BRecv.noBuf bs = some (r', sts) ∧ r'.cstr = some (r', []) := by
+  obtain ⟨r', e1, e2, e3⟩ := recv_nobuf_never_faults ctx bs
+  have hok : SlineOK BRecv.noBuf.line := ⟨rfl, by simp [BRecv.noBuf], by simp [BRecv.noBuf]⟩
+  obtain ⟨r1, f1, _, f3, f4, _⟩ := bfeed_refines ctx BRecv.noBuf hok bs
+  rw [e1] at f1
+  obtain rfl : r' = r1 := (Prod.mk.inj (Option.some.inj f1)).1
+  refine ⟨r', _, e1, ?_⟩
+  have hc : r'.line.cap = 0 := by rw [f4]; rfl
+  simp [BRecv.cstr, Sline.getline, hc, e2]
+
+-- non-vacuity: capacity 0 on an empty block
+example : (0#32).toNat ≤ ([] : List Byte).length := by decide
+
+/-! ### round 3b: a negative `len` given to `init` / `setbuf_v1` (was "Still open": caller error) -/
+
+/-- INSIDE THE EXCLUDED REGION of `recv_never_faults` (`cap ≤ |buf|`): `init(buf, -1)` - the `int` length
+arrives in `sline_init` as the unsigned capacity 0xFFFFFFFF - on a 4-byte block: the receiver accepts more
+bytes than the block has and the fifth payload byte is stored outside it (fault); with the true length 4 the
+same stream is answered OVERFLOW.  A negative length is a caller error the receiver cannot detect. -/
+theorem recv_negative_len_witness :
+    bfeed Ctx.v1 (BRecv.init [0, 0, 0, 0] (BitVec.ofInt 32 (-1))) [0xA8, 1, 2, 3, 4, 5] = none ∧
+    (bfeed Ctx.v1 (BRecv.init [0, 0, 0, 0] 4#32) [0xA8, 1, 2, 3, 4, 5]).map (·.2) =
+      some [CONTINUE, CONTINUE, CONTINUE, CONTINUE, OVERFLOW, GARBAGE] := by decide +kernel
+
+/-- the legacy receiver (`gstuff_autorecv_setbuf_v1(a, buf, -1)`) alike -/
+theorem legacy_negative_len_witness :
+    blfeed (BLRecv.init [0, 0, 0, 0] (BitVec.ofInt 32 (-1))) [0xAC, 1, 2, 3, 4, 5] = none ∧
+    (blfeed (BLRecv.init [0, 0, 0, 0] 4#32) [0xAC, 1, 2, 3, 4, 5]).map (·.2) =
+      some [CONTINUE, CONTINUE, CONTINUE, CONTINUE, OVERFLOW, CONTINUE] := by decide +kernel
+
 end Igris.Gstuff
